@@ -17,6 +17,9 @@ type clientCase struct {
 	Stream string `json:"stream"`
 	Idx    int    `json:"idx"`
 	Finish string `json:"finish"` // closewrite | close | none
+	// Mods: "" / "rec" = recording modifier only; "stack" = httpspec stack +
+	// har.Logger + recorder (context-using modifiers, as cmd/proxy installs).
+	Mods string `json:"mods,omitempty"`
 }
 
 var streamKinds = []string{
@@ -135,7 +138,7 @@ func runClientBatch(r *vh.Run, child int) {
 			if strings.HasPrefix(kind, "connect") && fin == "closewrite" {
 				fin = "close" // a half-closed tunnel is C04's subject
 			}
-			c := clientCase{Kind: "client", Stream: kind, Idx: i, Finish: fin}
+			c := clientCase{Kind: "client", Stream: kind, Idx: i, Finish: fin, Mods: []string{"rec", "stack"}[(i/4)%2]}
 			r.Case(c)
 			runClientCase(r, c)
 			if stopEarly(r) {
@@ -150,7 +153,8 @@ func runClientCase(r *vh.Run, c clientCase) {
 	nonce := fmt.Sprintf("%08x", rng.Uint32())
 	stream := genStream(c.Stream, rng)
 	mod := &recMod{}
-	env, err := h1x.Start(h1x.Opts{ResMod: mod})
+	reqmod, resmod := modifiers(c.Mods, mod)
+	env, err := h1x.Start(h1x.Opts{ReqMod: reqmod, ResMod: resmod})
 	if err != nil {
 		r.Inconclusive("harness: cannot start proxy/origin", err.Error())
 		return
@@ -230,7 +234,7 @@ func runClientCase(r *vh.Run, c clientCase) {
 			r.ViolationCase(c, "C03:canary:"+c.Stream, fmt.Sprintf("after the hostile client stream the canary on a fresh connection was not served: outcome=%s status=%d closed=%v", m.Outcome, m.Status, v.Closed),
 				map[string]interface{}{"stream": trunc(string(stream), 600), "canary_stream": trunc(string(v.Data), 600)})
 		} else {
-			r.Class("client|" + c.Stream + "|" + c.Finish + "|" + hostile)
+			r.Class("client|" + c.Stream + "|" + c.Finish + "|" + c.Mods + "|" + hostile)
 			r.Count("hostile_streams_survived", 1)
 			r.Count("hostile_bytes_sent", int64(len(stream)))
 		}
